@@ -39,6 +39,28 @@ def pre_hook():
                 f.write(str(getattr(req, 'full_url', req)) + '\n')
             return real(req, *a, **kw)
         urllib.request.urlopen = spy
+    fault = os.environ.get('VERIF_IOFAULT')
+    if fault:
+        # one departure from the default environment answer while the overlay / diff is applied to subprojects/w:
+        # 'copy:<n>' = the n-th file copy into the subproject fails with ENOSPC, 'popen' = the patch program cannot be started
+        import errno, shutil
+        from mesonbuild.wrap import wrap as wrapmod
+        if fault.startswith('copy:'):
+            nth = int(fault.split(':')[1])
+            real_copy2 = shutil.copy2
+            count = [0]
+
+            def copy2(src, dst, *a, **kw):
+                if '/subprojects/w' in str(dst):
+                    count[0] += 1
+                    if count[0] == nth:
+                        raise OSError(errno.ENOSPC, 'No space left on device (injected)', str(dst))
+                return real_copy2(src, dst, *a, **kw)
+            shutil.copy2 = copy2
+        elif fault == 'popen':
+            def no_popen(*a, **kw):
+                raise OSError(errno.ENOMEM, 'Cannot allocate memory (injected)')
+            wrapmod.Popen_safe = no_popen
 
 
 def mk_tar(members):
@@ -630,7 +652,8 @@ def variant(what, content):
 
 OK_DIFF = '--- a/src.txt\n+++ b/src.txt\n@@ -1 +1 @@\n-%s\n+SRC-DIFFED\n' % SRC_TOKEN.decode()
 BAD_DIFF = '--- a/src.txt\n+++ b/src.txt\n@@ -1 +1 @@\n-THIS-IS-NOT-THE-CONTENT\n+SRC-BADDIFF\n'
-STEPS = ['patchdir-missing', 'diff-missing', 'diff-noapply', 'diff-second-noapply', 'no-buildfile', 'patchdir-ok', 'diff-ok']
+STEPS = ['patchdir-missing', 'diff-missing', 'diff-noapply', 'diff-second-noapply', 'no-buildfile', 'patchdir-ok', 'diff-ok',
+         'io-copy-1', 'io-copy-2', 'io-copy-3', 'io-popen']      # io-*: an injected I/O error during run 1 only
 
 ACQ_UNSPEC = {
     'U3': 'a local packagefiles archive without a recorded hash whose content is corrupt: nothing to verify against',
@@ -661,6 +684,8 @@ def acq_cases():
 def acq_expect(c):
     """-> 'success' | 'refuse' | 'unspecified'"""
     if c['kind'] == 'step':
+        if c['step'].startswith('io-'):
+            return 'io-fault'            # run 1 must not prepare anything; run 2 (no fault, same inputs) must prepare everything
         return 'success' if c['step'].endswith('-ok') else 'refuse'
     if c['wm'] == 'nodownload' and c['loc'] in ('primary', 'fallback'):
         return 'refuse'                                  # [A5] nothing is fetched
@@ -764,7 +789,7 @@ def acq_case(c):
             sp_msg = SRC_TOKEN.decode() + '|' + PATCH_TOKEN.decode()
     else:
         step = c['step']
-        src = mk_tar(NOBUILD_SRC_MEMBERS) if step == 'no-buildfile' else good_archive('source')
+        src = mk_tar(NOBUILD_SRC_MEMBERS) if step == 'no-buildfile' or step.startswith('io-copy') else good_archive('source')
         fn = 'src.tar'
         wrap.append('source_filename = src.tar')
         if c['srcloc'] == 'primary':
@@ -784,7 +809,21 @@ def acq_case(c):
         for k in ('ok.diff', 'bad.diff', 'pd/patched.txt'):
             v = files['subprojects/packagefiles/' + k]
             seeded['packagefiles/' + k] = sha(v if isinstance(v, bytes) else v.encode())
-        if step == 'patchdir-missing':
+        if step.startswith('io-copy'):
+            # the overlay brings the only build file (top level: copied first) and two more files below it
+            ov = {'meson.build': SP_W_BUILD, 'patched.txt': PATCH_TOKEN + b'\n', 'extra/fix.h': '/* fix */\n'}
+            for k, v in ov.items():
+                files['subprojects/packagefiles/pdio/' + k] = v
+                seeded['packagefiles/pdio/' + k] = sha(v if isinstance(v, bytes) else v.encode())
+            wrap.append('patch_directory = pdio')
+            expected_tree = dict((n[2:], sha(d if isinstance(d, bytes) else d.encode())) for n, d in NOBUILD_SRC_MEMBERS)
+            expected_tree.update({k: sha(v if isinstance(v, bytes) else v.encode()) for k, v in ov.items()})
+            sp_msg = SRC_TOKEN.decode() + '|' + PATCH_TOKEN.decode()
+        elif step == 'io-popen':
+            wrap.append('diff_files = ok.diff')
+            expected_tree['src.txt'] = sha(b'SRC-DIFFED\n')
+            sp_msg = 'SRC-DIFFED|none'
+        elif step == 'patchdir-missing':
             wrap.append('patch_directory = nosuchdir')
         elif step == 'diff-missing':
             wrap.append('diff_files = nosuch.diff')
@@ -817,7 +856,8 @@ def acq_case(c):
     problems = []
     obs = {'expect': expect, 'runs': []}
 
-    def check_tree(run_no, found, spm):
+    def check_tree(run_no, found, spm, exp=None):
+        e_ = exp or expect
         ls = listing(root)
         w_files = {k[2:]: v for k, v in ls.items() if k.startswith('w/')}
         rest = {k: v for k, v in ls.items() if not k.startswith('w/')}
@@ -847,7 +887,7 @@ def acq_case(c):
         if mk:
             problems.append(('C10:acq:unverified-content-unpacked', '%s: content of an archive that failed (or never had) verification found at %s' % (tag, mk[:3])))
         exists = os.path.isdir(os.path.join(root, 'subprojects', 'w'))
-        if expect == 'refuse':
+        if e_ == 'refuse':
             if found:
                 problems.append(('C10:acq:%s:%s' % ('second-run-accepts-half-prepared' if run_no == 2 else 'accepted-unverified', c.get('step') or c['what']),
                                  '%s: subproject configured although %s must be refused (message %r)' % (tag, describe(c), spm)))
@@ -862,7 +902,7 @@ def acq_case(c):
                 for k, (size, h) in w_files.items():
                     if expected_tree.get(k) != h:
                         problems.append(('C10:acq:stray-file', '%s: unexpected w/%s' % (tag, k)))
-        elif expect == 'success':
+        elif e_ == 'success':
             if found is False or (found is None and not exists):
                 problems.append(('C10:acq:good-refused:%s' % (c.get('loc') or c.get('step')), '%s: %s should configure but did not' % (tag, describe(c))))
             else:
@@ -880,13 +920,17 @@ def acq_case(c):
             problems.append(('C10:acq:fetched-under-nodownload', '%s: URL opened under wrap_mode=nodownload: %s' % (tag, open(urllog).read()[:200])))
         obs['runs'].append({'found': found, 'sp': spm, 'w_exists': exists, 'cache': sorted(k for k in ls if k.startswith('packagecache/'))})
 
-    def run_setup(bld):
-        r = mp.run_meson(setup_argv(c['wm'], [], bld), root, env=env, pre=pre_hook, timeout=120)
+    def run_setup(bld, env_=None, abort_ok=False):
+        r = mp.run_meson(setup_argv(c['wm'], [], bld), root, env=env_ or env, pre=pre_hook, timeout=120)
         m = re.search(r'^Message: VERIF-FOUND\|(\w+)\|', r.out, re.M)
         sm = re.search(r'Message: VERIF-SP\|([^\n]*)\|$', r.out, re.M)
-        if r.unhandled:
+        if abort_ok and 'Unhandled python OSError' in r.out:
+            pass        # the injected I/O error ended the run; meson reports it as a problem of the environment
+        elif r.unhandled:
             problems.append(('C10:acq:unhandled-exception:%s' % exc_class(c),
                              'meson setup died with a Python traceback on %s: %s' % (describe(c), r.out[-400:])))
+        elif m is None and abort_ok:
+            pass        # an I/O error of the environment may end the whole run (reported as an error, not a traceback)
         elif m is None:
             problems.append(('C10:acq:setup-aborted', 'meson setup failed outright on %s although the subproject is optional: %s' % (describe(c), r.out[-300:])))
         return (m is not None and m.group(1) == 'true'), (sm.group(1) if sm else None)
@@ -902,6 +946,11 @@ def acq_case(c):
             check_tree(1, None, None)
         else:
             obs['runs'].append({'download_rc': r.rc, 'found': r.rc == 0})
+    elif expect == 'io-fault':
+        fenv = dict(env)
+        fenv['VERIF_IOFAULT'] = 'popen' if c['step'] == 'io-popen' else 'copy:' + c['step'].rsplit('-', 1)[1]
+        f1, s1 = run_setup('bld', fenv, abort_ok=True)
+        check_tree(1, f1, s1, 'refuse')
     else:
         f1, s1 = run_setup('bld')
         if expect != 'unspecified':
@@ -909,7 +958,9 @@ def acq_case(c):
         else:
             obs['runs'].append({'found': f1, 'sp': s1})
     f2, s2 = run_setup('bld2')
-    if expect != 'unspecified':
+    if expect == 'io-fault':
+        check_tree(2, f2, s2, 'success')
+    elif expect != 'unspecified':
         check_tree(2, f2, s2)
     else:
         # no hash to verify against: only the hash-independent invariants apply (no traceback; what run 1 failed to prepare
